@@ -15,7 +15,8 @@ TECHNIQUE = "exceptional-postcondition proofs on the real backend functions over
 RULE = _rtc.RTC_RULE
 Z = "vf.contracts.z3solve"
 FUNCTIONS = ["backend_z3.z3_solver_sat", "BackendZ3._batch_eval", "BackendZ3._extrema"] + \
-            [f"ModelCacheMixin.{m} (exceptional postcondition)" for m in ("eval", "batch_eval", "min", "max", "solution", "satisfiable")]
+            [f"ModelCacheMixin.{m} (exceptional postcondition)" for m in ("eval", "batch_eval", "min", "max", "solution", "satisfiable")] + \
+            ["CompositeFrontend.check_satisfiability (a child's solver call gives up: representation invariant kept)", "CompositeFrontend._ensure_sat"]
 TRUSTED = _rtc.RTC_TRUSTED + ["ghost solver: push/pop/add/model as documented by Z3"]
 ASSUMPTIONS = ["the layers between _batch_eval/_extrema and ModelCacheMixin (FullFrontend and the other mixins) keep no state across a raised call: bounded part only",
                "value universe of 2 bits for _batch_eval (n <= 3), 3 bits for _extrema"]
@@ -28,4 +29,7 @@ def tasks(tier, seed=0):
     for m in ("eval", "min", "max", "solution", "satisfiable"):
         out.append(task("vf.contracts.mixins", "ob_modelcache", f"mixin.ModelCacheMixin.{m}[backend-may-give-up]/answer+invariant", ["C17", "C11"],
                         method=m, tier=tier, faults=True))
+    from vf.contracts import composite
+    for m in composite.FAULT_METHODS:
+        out.append(task("vf.contracts.composite", "ob_composite", f"composite.{m}/rep-after-a-child-gave-up", ["C17", "C12"], method=m, tier=tier))
     return out + _rtc.rtc_tasks("C17", tier, seed)
